@@ -882,7 +882,7 @@ for _item in C18_EXTRA:
 def c18_udp_scenarios(tier):
     out = []
     extra = [len(ALPHA) - len(C18_EXTRA) + i for i in range(len(C18_EXTRA))]
-    letters = [0, 1, 2, 10] + extra
+    letters = [0, 1, 2, 9, 10] + extra      # 9: a whole bundle and a segment in one datagram
     for first in letters:
         out.append(dict(name='udpcl/first-%s' % ALPHA[first][0], kind='graph',
                         params=dict(udpcl=True, max_depth=4 if tier == 'thorough' else 3, letters=letters, prefix=[first]),
